@@ -1268,6 +1268,7 @@ func c19Instances(add func(*Instance), thorough bool) {
 			ad(with(base, "st", 10, "sc", 0, "neg", 1), 1)
 		}
 		if pkg == "roaring64" {
+			ad(with(base, "st", 6, "rw", 4), 0) // UnmarshalBinary into a receiver created for a wider range
 			ad(with(base, "st", 8, "sc", 0, "othneg", 1), 0) // Increment of a non-negative column while another column holds a negative value
 			ad(with(base, "st", 8, "sc", 1, "othneg", 1, "w", 3), 0)
 			ad(with(base, "st", 1, "w2", 3, "sc", 0), 0)
@@ -1294,6 +1295,8 @@ func c20Instances(add func(*Instance), thorough bool) {
 				ad(with(base, "q", 0, "cop", cop, "fs", 0, "neg", 1), tier)
 			}
 			ad(with(base, "q", 2, "fs", 0, "neg", 1), 0)
+			ad(with(base, "q", 2, "fs", 0, "neg", 1, "par", 1), 0)
+			ad(with(base, "q", 2, "fs", 0, "neg", 1, "par", 2), 0)
 			ad(with(base, "q", 3, "fs", 0, "neg", 1), 0)
 			ad(with(base, "q", 4, "fs", 0, "neg", 1), 1)
 		}
